@@ -93,10 +93,13 @@ struct Gen {
   }
 };
 
+bool g_allowSelfLoops = true; // --param selfloops=0 (TSan runs, see lib/specs/c10.py)
 void features(Rng& rng, CaseSpec& s, unsigned multiPct, unsigned selfPct, unsigned removalPct) {
   s.multiEdges  = rng.below(100) < multiPct;
   s.selfLoops   = rng.below(100) < selfPct;
   s.nodeRemoval = rng.below(100) < removalPct;
+  if (!g_allowSelfLoops)
+    s.selfLoops = false;
 }
 
 void genSequential(Rng& rng, const Flavour& fl, CaseSpec& s, bool thorough) {
@@ -393,6 +396,7 @@ int main(int argc, char** argv) {
   std::string onlyFl   = H.param("flavour");
   std::string onlyMode = H.param("mode");
   long maxItems        = H.paramInt("maxitems", 0);
+  g_allowSelfLoops     = H.paramInt("selfloops", 1) != 0;
   std::vector<const Flavour*> pool;
   for (auto& f : reg)
     if (onlyFl.empty() || strstr(f.name, onlyFl.c_str()))
